@@ -510,6 +510,7 @@ func gendet(c *harness.Ctx) {
 	if mname == "restlidata" {
 		// regeneration equivalence with the checked-in bindings
 		base := filepath.Join(repoV2, "restlidata", "generated")
+		differs := ""
 		for _, p := range names {
 			if !owned(p) || strings.HasPrefix(filepath.Base(p), "all_imports_test") {
 				continue
@@ -519,10 +520,31 @@ func gendet(c *harness.Ctx) {
 				c.Fail("C12", "checked-in-missing", "checked-in-missing", "the generator produces %s from the checked-in manifest, but it is not checked in", p)
 				return
 			}
-			if !bytes.Equal(want, ref[p]) {
-				c.Fail("C12", "checked-in-differs", "checked-in-differs:"+filepath.Base(p), "checked-in %s is not what the current generator produces from the checked-in manifest:\n%s", p, firstDiff(want, ref[p]))
+			if !bytes.Equal(want, ref[p]) && differs == "" {
+				differs = fmt.Sprintf("%s, %s", p, firstDiff(want, ref[p]))
+			}
+		}
+		if differs != "" || os.Getenv("VW_FORCE_EQUIV") != "" {
+			// not the same bytes: C12 asks for equivalence (same exported API, encodings, decodings, equality,
+			// hashes), which is judged on the compiled code
+			switch kind, detail := judgeEquivalence(ref); kind {
+			case "":
+				c.Probe("checked-in-bytes-differ-but-equivalent")
+			case "compile":
+				c.Fail("C12", "generated-does-not-compile", "generated-does-not-compile:restlidata", "what the current generator produces from the checked-in manifest does not compile:\n%s", detail)
+				return
+			case "api":
+				c.Fail("C12", "checked-in-differs", "checked-in-differs:api", "the checked-in bindings and a regeneration from the checked-in manifest export different APIs (first byte difference: %s):\n%s", differs, detail)
+				return
+			case "behaviour":
+				c.Fail("C12", "checked-in-differs", "checked-in-differs:behaviour", "the checked-in bindings and a regeneration from the checked-in manifest behave differently (first byte difference: %s):\n%s", differs, detail)
+				return
+			default:
+				c.Fail("HARNESS", "equivalence", "equivalence", "%s", detail)
 				return
 			}
+		} else {
+			c.Probe("checked-in-bindings-identical")
 		}
 		c.Probe("checked-in-bindings-compared")
 	}
@@ -539,5 +561,5 @@ func firstDiff(a, b []byte) string {
 }
 
 func TestS6(t *testing.T) {
-	harness.Main(t, map[string]harness.Scenario{"genfs": genfs, "gendet": gendet})
+	harness.Main(t, map[string]harness.Scenario{"genfs": genfs, "gendet": gendet, "gencompile": gencompile})
 }
